@@ -36,7 +36,11 @@ func viewMatches(env *verifEnv, res sgbucket.ViewResult, what string) {
 
 func stepView(op int) {
 	verifSymOnly()
-	env := verifWorld(true, 2, 2)
+	nDocs := 1
+	if verifThorough() {
+		nDocs = 2
+	}
+	env := verifWorld(true, 2, nDocs)
 	verifCutEvents()
 	c := env.colls[0]
 	ctx := context.Background()
@@ -63,12 +67,14 @@ func stepView(op int) {
 		_, err = env.b.PurgeTombstones()
 	case 5:
 		err = env.colls[1].SetRaw(key, 0, nil, verifBytesNonNil("val")) // another collection
+	case 6:
+		pre := verifGetDoc(env.db, 1, key)
+		newCas := verifU64("newCas")
+		verifAssume(verifAnd(newCas > 0, newCas < 1<<62))
+		err = c.SetWithMeta(ctx, key, uint64(pre.Cas), newCas, 0, nil, verifBytesNonNil("val"), sgbucket.FeedDataTypeRaw)
 	}
-	if err != nil {
-		verifReach("op-failed")
-	} else {
-		verifReach("op-done")
-	}
+	_ = err
+	verifReach("second-query")
 	res2, err := c.View(ctx, "dd", "v", nil)
 	verifAssert(err == nil, "second view query succeeds")
 	if err != nil {
@@ -89,3 +95,5 @@ func Harness_C12_viewWriteCas() { stepView(2) }
 func Harness_C12_viewXattrs()   { stepView(3) }
 func Harness_C12_viewPurge()    { stepView(4) }
 func Harness_C12_viewOtherColl() { stepView(5) }
+
+func Harness_C12_viewSetWithMeta() { stepView(6) }
